@@ -38,6 +38,9 @@ type Case struct {
 	// have the tested name as a prefix or suffix (pz as a deepObject / plain value, zp); they are
 	// valid, so neither the decoded value nor any verdict about "p" may change
 	Neighbours bool `json:"neighbours,omitempty"`
+	// RepeatedNeighbour (query only): the operation also declares an exploded array parameter "tag", and
+	// the request carries it twice (tag=a&tag=b): a key that occurs twice but belongs to another parameter
+	RepeatedNeighbour bool `json:"repeated_neighbour,omitempty"`
 	// Default: JSON text of a schema default that satisfies the schema ("" = none). A default never makes
 	// a required parameter optional: absent and required is still "missing"
 	Default string `json:"default,omitempty"`
@@ -141,6 +144,9 @@ func build(c Case) (*openapi3.T, *openapi3.Parameter, error) {
 			params = append(params, M{"name": "pz", "in": c.In, "schema": M{"type": "string"}}, M{"name": "zp", "in": c.In, "schema": M{"type": "string"}})
 		}
 	}
+	if c.RepeatedNeighbour && c.In == "query" {
+		params = append(params, M{"name": "tag", "in": "query", "schema": M{"type": "array", "items": M{"type": "string"}}})
+	}
 	raw := kinx.Doc(M{path: M{"get": M{"parameters": params, "responses": M{"200": M{"description": "d"}}}}}, M{"schemas": jv.Clone(sharedSchemas)})
 	doc, err := kinx.Load(raw)
 	if err != nil {
@@ -169,6 +175,12 @@ func request(c Case, text string, present bool) (*http.Request, map[string]strin
 				}
 			}()
 		}
+	}
+	if c.RepeatedNeighbour && c.In == "query" {
+		if req.URL.RawQuery != "" {
+			req.URL.RawQuery += "&"
+		}
+		req.URL.RawQuery += "tag=a&tag=b"
 	}
 	if !present {
 		if c.In == "path" {
@@ -716,6 +728,10 @@ func gen(t *rapid.T) Case {
 	}
 	if !neutral {
 		c.Neighbours = false
+	}
+	// a repeated key of another parameter: neutral for every shape that names its members
+	if cl.in == "query" && sh.name != "object-additional" && sh.name != "deep-additional" {
+		c.RepeatedNeighbour = rapid.IntRange(0, 3).Draw(t, "repeatedneighbour") == 0
 	}
 	return c
 }
